@@ -509,20 +509,22 @@ Definition queries (T : table) (d : dict) (s : str) : list (N * str) :=
 Definition ty_eqb (a b : ty) : bool :=
   match a, b with TStr, TStr | TInt, TInt | TFloat, TFloat | TBool, TBool => true | _, _ => false end.
 
-(* usbtmc: no positionals; keywords vendorid:int, productid:int, serialnr:str (required flags free);
-   constructor (vendorid, productid, serialnr) without defaults *)
+(* usbtmc: no positionals; keywords productid:int, serialnr:str, vendorid:int (required flags free);
+   constructor takes exactly these three, without defaults.  Keyword tables and constructor
+   signatures are emitted by the translator in name order (their order carries no meaning: both are
+   only ever looked up by name), so this shape does not depend on the order in the source. *)
 Definition usbtmc_shape (e : entry) : bool :=
   match e_kind e with KUsbTmc => true | _ => false end
   && str_eqb (t_iface (e_tbl e)) (str_of "usbtmc")
   && match t_pos (e_tbl e) with [] => true | _ => false end
   && match t_kw (e_tbl e) with
-     | [a; b; c] => str_eqb (pname a) n_vendorid && ty_eqb (pty a) TInt
-                    && str_eqb (pname b) n_productid && ty_eqb (pty b) TInt
-                    && str_eqb (pname c) n_serialnr && ty_eqb (pty c) TStr
+     | [a; b; c] => str_eqb (pname a) n_productid && ty_eqb (pty a) TInt
+                    && str_eqb (pname b) n_serialnr && ty_eqb (pty b) TStr
+                    && str_eqb (pname c) n_vendorid && ty_eqb (pty c) TInt
      | _ => false
      end
   && match e_ctor e with
-     | [(a, None); (b, None); (c, None)] => str_eqb a n_vendorid && str_eqb b n_productid && str_eqb c n_serialnr
+     | [(a, None); (b, None); (c, None)] => str_eqb a n_productid && str_eqb b n_serialnr && str_eqb c n_vendorid
      | _ => false
      end.
 
